@@ -280,6 +280,60 @@ std::string read_twice(const Bytes &fa, const Bytes &fb, bool as_mesh) {
 VH_OP(obj_dech) { return read_twice<ObjDecoder>(vh::unhex(a[2]), vh::unhex(a[3]), a[1] == "1"); }
 VH_OP(ply_dech) { return read_twice<PlyDecoder>(vh::unhex(a[2]), vh::unhex(a[3]), a[1] == "1"); }
 
+// obj_print <bits,...> -> <hex of the text ObjEncoder prints for each value>,...   (snprintf "%F", 20-byte buffer)
+VH_OP(obj_print) {
+  auto l = vh::ilist(a[1]);
+  PointCloud pc;
+  pc.set_num_points(static_cast<uint32_t>(l.size()));
+  GeometryAttribute ga;
+  ga.Init(GeometryAttribute::POSITION, nullptr, 3, DT_FLOAT32, false, 12, 0);
+  const int id = pc.AddAttribute(ga, true, static_cast<uint32_t>(l.size()));
+  for (size_t i = 0; i < l.size(); ++i) {
+    uint32_t v[3] = {static_cast<uint32_t>(l[i]), 0, 0};
+    pc.attribute(id)->SetAttributeValue(AttributeValueIndex(static_cast<uint32_t>(i)), v);
+  }
+  Bytes f;
+  if (!write_obj(&pc, false, &f)) return "ERR";
+  std::string out;
+  size_t p = 0;
+  while (p < f.size()) {
+    size_t q = p;
+    while (q < f.size() && f[q] != '\n') ++q;
+    // "v <x> <y> <z>"
+    size_t b = p + 2, e = b;
+    while (e < q && f[e] != ' ') ++e;
+    if (!out.empty()) out += ',';
+    out += vh::hex(f.data() + b, e - b);
+    p = q + 1;
+  }
+  return out;
+}
+
+// obj_parse <hex token,...> -> <bits>:<characters consumed> | ?   per token   (parser::ParseFloat)
+VH_OP(obj_parse) {
+  std::string out;
+  size_t p = 0;
+  const std::string &s = a[1];
+  while (p <= s.size()) {
+    size_t q = s.find(',', p);
+    if (q == std::string::npos) q = s.size();
+    auto tok = vh::unhex(s.substr(p, q - p));
+    p = q + 1;
+    DecoderBuffer b;
+    b.Init(reinterpret_cast<const char *>(tok.data()), tok.size());
+    float f;
+    if (!out.empty()) out += ',';
+    if (!parser::ParseFloat(&b, &f)) {
+      out += "?";
+    } else {
+      uint32_t u;
+      memcpy(&u, &f, 4);
+      out += std::to_string(u) + ":" + std::to_string(static_cast<int64_t>(tok.size()) - b.remaining_size());
+    }
+  }
+  return out;
+}
+
 // ---------------------------------------------------------------- command line tools
 
 namespace {
